@@ -612,6 +612,139 @@ pub fn check_tape(ctx: &Ctx, name: &str, blocks: &[Vec<u8>], budget: u8, quick: 
     }
 }
 
+/// The deck as the host drives it: every history of `depth` host commands from {play_tape,
+/// stop_tape, rewind_tape, 30 frames, frames until the deck stops by itself} applied to a whole
+/// Emulator (idle CPU, free-running frames) and, in lock step, to a bare Tap advanced by the same
+/// amount of emulated time in 16-T steps. After every command both decks must agree on
+/// stopped/running, a deck left running must stop by itself after the same number of frames on both
+/// (+-3 frames: the drift different clock partitions allow over a whole tape), and so must the final
+/// play that follows every history.
+pub fn emulator_level_histories(ctx: &Ctx, depth: usize) {
+    use crate::rig::{Opts, RegsView};
+    #[derive(Clone, Copy, Debug, PartialEq)]
+    enum Cmd {
+        Play,
+        Stop,
+        Rewind,
+        Run30,
+        RunEnd,
+    }
+    const CMDS: [Cmd; 5] = [Cmd::Play, Cmd::Stop, Cmd::Rewind, Cmd::Run30, Cmd::RunEnd];
+    let blocks = vec![std_block(0xFF, &[0xA5]), std_block(0xFF, &[0x3C, 0x81])];
+    let image = AssetData::Static(Box::leak(tap_image(&blocks).into_boxed_slice()));
+    let mut leaves: Vec<Vec<Cmd>> = vec![vec![]];
+    for _ in 0..depth {
+        let mut next = Vec::new();
+        for h in leaves.iter() {
+            for c in CMDS {
+                let mut n = h.clone();
+                n.push(c);
+                next.push(n);
+            }
+        }
+        leaves = next;
+    }
+    ctx.note("emulator_level_histories", json!(leaves.len()));
+    crate::vcore::par_for(leaves.len(), 4, |i| {
+        let h = &leaves[i];
+        let m128 = i % 2 == 1;
+        let mut o = Opts::machine(m128);
+        o.sound = false;
+        o.fastload = i % 3 == 0;
+        let mut e = rig::emu(&o);
+        rig::poke(&mut e, 0x9000, &[0xF3, 0x18, 0xFE]);
+        let mut r = RegsView::default();
+        r.pc = 0x9000;
+        r.sp = 0xBF00;
+        rig::set_regs(e.verif_cpu(), &r);
+        if e.load_tape(rustzx_core::host::Tape::Tap(rig::VAsset::from_data(image.clone()))).is_err() {
+            return;
+        }
+        let mut t = new_tap(&image);
+        let frame_t: u64 = if m128 { 70908 } else { 69888 };
+        let stopped_e = |e: &rig::Emu| e.verif_tape_state().map(|s| s.state.0 == TAG_STOP).unwrap_or(true);
+        let stopped_t = |t: &RTap| t.verif_state().state.0 == TAG_STOP;
+        // advance both by up to `frames` frames; returns the frame at which each deck was first seen stopped
+        let run = |e: &mut rig::Emu, t: &mut RTap, frames: usize, until_stop: bool| -> (Option<usize>, Option<usize>) {
+            let (mut fe, mut ft) = (None, None);
+            for k in 0..frames {
+                if stopped_e(e) && fe.is_none() {
+                    fe = Some(k);
+                }
+                if stopped_t(t) && ft.is_none() {
+                    ft = Some(k);
+                }
+                if until_stop && fe.is_some() && ft.is_some() {
+                    break;
+                }
+                let _ = e.emulate_frames(std::time::Duration::from_secs(1000));
+                let mut left = frame_t;
+                while left > 0 {
+                    let s = left.min(16);
+                    let _ = t.process_clocks(s as usize);
+                    left -= s;
+                }
+            }
+            (fe, ft)
+        };
+        let mut trace = String::new();
+        let report = |what: &str, trace: &str, detail: String| {
+            ctx.violation(
+                &format!("C12:emulator-level:{}", what),
+                &format!("host commands [{}] applied to a {} Emulator (idle program) and to a bare Tap over the same emulated time: {}", trace.trim_end(), if m128 { "128K" } else { "48K" }, detail),
+                json!({"kind":"emulator-level","history":trace,"m128":m128}),
+            );
+        };
+        let agree = |a: Option<usize>, b: Option<usize>| match (a, b) {
+            (Some(x), Some(y)) => x.abs_diff(y) <= 3,
+            (None, None) => true,
+            _ => false,
+        };
+        for c in h.iter() {
+            trace.push_str(&format!("{:?} ", c));
+            ctx.add_eval(1);
+            match c {
+                Cmd::Play => {
+                    e.play_tape();
+                    t.play();
+                }
+                Cmd::Stop => {
+                    e.stop_tape();
+                    t.stop();
+                }
+                Cmd::Rewind => {
+                    let _ = e.rewind_tape();
+                    let _ = t.rewind();
+                }
+                Cmd::Run30 => {
+                    run(&mut e, &mut t, 30, false);
+                }
+                Cmd::RunEnd => {
+                    let (fe, ft) = run(&mut e, &mut t, 700, true);
+                    if !agree(fe, ft) {
+                        report("time-to-end", &trace, format!("left running, the emulator's deck stopped by itself after {:?} frames, the bare deck after {:?}", fe, ft));
+                        return;
+                    }
+                }
+            }
+            if stopped_e(&e) != stopped_t(&t) {
+                report("deck-state", &trace, format!("after the last command the emulator's deck is {}, the bare deck is {}", if stopped_e(&e) { "stopped" } else { "running" }, if stopped_t(&t) { "stopped" } else { "running" }));
+                return;
+            }
+        }
+        // the next play must run, on both, through the same rest of the tape
+        e.play_tape();
+        t.play();
+        let (fe, ft) = run(&mut e, &mut t, 700, true);
+        trace.push_str("then Play, run to the end");
+        if !agree(fe, ft) {
+            report("final-play", &trace, format!("the final play ran for {:?} frames on the emulator and {:?} on the bare deck before the deck stopped", fe, ft));
+            return;
+        }
+        ctx.outcome(crate::vcore::fnv(trace.as_bytes()) ^ ft.unwrap_or(9999) as u64);
+    });
+}
+
 pub fn run(tier: Tier, seed: u64, replay: Option<String>) -> i32 {
     let ctx = Ctx::new("C12", tier, seed, "model_checking");
     if let Some(path) = replay {
@@ -637,10 +770,11 @@ pub fn run(tier: Tier, seed: u64, replay: Option<String>) -> i32 {
         let bj = json!({"kind":"deck","tape":name,"blocks":blocks.iter().map(|b| crate::vcore::hex(b)).collect::<Vec<_>>()});
         ctx.guard(&format!("tape {}", name), bj, || check_tape(&ctx, name, blocks, budget, quick));
     });
+    emulator_level_histories(&ctx, if quick { 4 } else { 5 });
     ctx.note("command_budget", json!(budget));
     ctx.note("not_judged", json!("EAR level change caused by the rewind command itself"));
     ctx.finish(
-        "BFS over (real Tap, RefDeck) from a playing and a cold deck: at every T position inside the command windows (first pilot pulses, pilot->sync->first byte, last bits->pause head, pause tail->next pilot / end of tape, after the end) every command of {stop, play, rewind} up to the command budget (rewind also while the deck is playing: the deck must go on as a fresh playing tape, or else what it plays to the end of the tape is decoded and must be exactly the tape's blocks with full pilots), advance(1) inside windows and deterministic fast-forward between them; refinement mapping checked after every action; dedup on (complete Tap state incl. prev_state, RefDeck, remaining budget). distinct = distinct (prev_state, mode, command trace) outcomes",
+        "BFS over (real Tap, RefDeck) from a playing and a cold deck: at every T position inside the command windows (first pilot pulses, pilot->sync->first byte, last bits->pause head, pause tail->next pilot / end of tape, after the end) every command of {stop, play, rewind} up to the command budget (rewind also while the deck is playing: the deck must go on as a fresh playing tape, or else what it plays to the end of the tape is decoded and must be exactly the tape's blocks with full pilots), advance(1) inside windows and deterministic fast-forward between them; refinement mapping checked after every action; dedup on (complete Tap state incl. prev_state, RefDeck, remaining budget); host level: every history of 4 (thorough 5) commands of {play_tape, stop_tape, rewind_tape, 30 frames, run until the deck stops} on a whole Emulator in lock step with a bare Tap over the same emulated time (stopped/running after every command, frames until the deck stops by itself, and the final play to the end of the tape must agree). distinct = distinct (prev_state, mode, command trace) outcomes",
         true,
         &["uninterrupted tape behaviour (the refinement target) is C11's verified chain", "prev_state is read only by play(): equality of all other fields implies equal futures until the next command"],
     )
@@ -653,6 +787,13 @@ fn replay_case(ctx: &Ctx, path: &str) -> i32 {
         .as_array()
         .map(|a| a.iter().map(|x| crate::vcore::unhex(x.as_str().unwrap_or(""))).collect())
         .unwrap_or_default();
+    if case["kind"] == "emulator-level" {
+        println!("replay: host-level history [{}]", case["history"].as_str().unwrap_or(""));
+        emulator_level_histories(ctx, 4);
+        let n = ctx.violation_classes();
+        println!("replay: {} violation class(es) reproduced", n);
+        return (n > 0) as i32;
+    }
     println!("replay: tape {:?}, failing history [{}] then {}", case["tape"], case["commands"].as_str().unwrap_or(""), case["next_action"]);
     check_tape(ctx, "replay", &blocks, 4, true);
     let n = ctx.violation_classes();
